@@ -248,13 +248,16 @@ def corpus_cases():
     out = []
     p = rg.Prog([rg.Adt("A", 0, "struct", [[B]]), rg.Adt("B", 0, "struct", [[A]]), rg.Adt("N"), rg.Adt("X", 0, "struct", [[("adt", "Y", ()), N]]),
                  rg.Adt("Y", 0, "struct", [[("adt", "X", ())]]),
-                 rg.Adt("E", 0, "enum", [[], [A], [N]]), rg.Adt("W", 1, "struct", [[("var", 0)]]), rg.Adt("Yes")],
+                 rg.Adt("E", 0, "enum", [[], [A], [N]]), rg.Adt("W", 1, "struct", [[("var", 0)]]), rg.Adt("Yes"),
+                 # a field of the ADT's own constructor at OTHER arguments is a real requirement: L<A> needs L<N> needs N
+                 rg.Adt("L", 1, "struct", [[("var", 0), ("adt", "L", (N,))]]), rg.Adt("R", 0, "struct", [[("adt", "R", ()), A]])],
                 [rg.Trait("Send", auto=True)],
                 [rg.Impl(0, ("Send", (N,)), [], False), rg.Impl(0, ("Send", (("adt", "W", (("adt", "Yes", ()),)),)), [], False),
                  rg.Impl(0, ("Send", (("fnptr", (N, N)),)), [], False)], [], "corpus")
     gs = [("Send", (t,)) for t in (A, B, N, ("adt", "X", ()), ("adt", "Y", ()), ("adt", "E", ()), ("adt", "W", (A,)), ("adt", "W", (("adt", "Yes", ()),)),
                                    ("fnptr", (N, N)), ("fnptr", (A, A)), ("fnptr", (A,)), ("tuple", (A, ("ref", False, B))), ("tuple", (A, N)),
-                                   ("array", ("adt", "E", ()), 2), ("raw", True, N), ("slice", ("adt", "X", ())))]
+                                   ("array", ("adt", "E", ()), 2), ("raw", True, N), ("slice", ("adt", "X", ())),
+                                   ("adt", "L", (A,)), ("adt", "L", (N,)), ("adt", "R", ()))]
     out.append((p, gs))
     # #[upstream] explicit impls are explicit impls: they suppress the field-based auto impl like local ones
     Data, RcD = ("adt", "Data", ()), ("adt", "Rc", (("adt", "Data", ()),))
